@@ -76,6 +76,57 @@ example : (TV.step (⟨Prod.fst, Prod.fst, Prod.fst, id, id⟩ : TVSpec (Nat × 
     (TV.run ⟨Prod.fst, Prod.fst, Prod.fst, id, id⟩ (TV.init ⟨Prod.fst, Prod.fst, Prod.fst, id, id⟩ none) [.call (4, 0)])
     (.call (4, 1))).2 = .inl (4, 0) := by decide
 
+
+/-! ### caches filled inside a `jax.jit` trace (TVNorm deferred operators, `LinearOperator._adj`) -/
+
+/-- Repaired code (`concrete = true`: construction under `jax.ensure_compile_time_eval`): after ANY history of
+    queries in ANY mixture of contexts (eager, different jit traces), a query in any context succeeds and
+    uses the operator a fresh object would build. -/
+theorem C19_ctx_fixed {ι κ ω : Type} [DecidableEq κ] (opKey : ω → κ) (keyOf : ι → κ) (build : ι → ω)
+    (hF : ∀ i j, keyOf i = keyOf j → build i = build j) (hK : ∀ i, opKey (build i) = keyOf i)
+    (hist : List (ExecCtx × ι)) (c : ExecCtx) (i : ι) :
+    (queryCtx true opKey keyOf build (runCtx true opKey keyOf build none hist) c i).2 = .ok (build i) := by
+  have hal : ∀ c' m, m = ExecCtx.eager → usable m c' = true := fun c' m hm => by rw [hm]; exact usable_eager c'
+  have hslot := runCtx_ok opKey keyOf build true (· = ExecCtx.eager) hF hK hist
+    (fun p _ => ⟨hal p.1, rfl⟩) none (slotOk_none build _)
+  exact (queryCtx_ok opKey keyOf build true (· = ExecCtx.eager) c hF hK (hal c) rfl _ hslot i).1
+
+/-- Code of the current tree (`concrete = false`), partial: as long as every call of the history and the
+    probe happen in ONE context (e.g. the object is only ever used eagerly, or only inside one trace) the
+    query succeeds and equals the fresh object's. -/
+theorem C19_ctx_partial {ι κ ω : Type} [DecidableEq κ] (opKey : ω → κ) (keyOf : ι → κ) (build : ι → ω)
+    (hF : ∀ i j, keyOf i = keyOf j → build i = build j) (hK : ∀ i, opKey (build i) = keyOf i)
+    (c : ExecCtx) (hist : List (ExecCtx × ι)) (hc : ∀ p ∈ hist, p.1 = c) (i : ι) :
+    (queryCtx false opKey keyOf build (runCtx false opKey keyOf build none hist) c i).2 = .ok (build i) := by
+  have hal : ∀ m, m = c → usable m c = true := fun m hm => by rw [hm]; exact usable_self c
+  have hslot := runCtx_ok opKey keyOf build false (· = c) hF hK hist
+    (fun p hp => by rw [hc p hp]; exact ⟨hal, rfl⟩) none (slotOk_none build _)
+  exact (queryCtx_ok opKey keyOf build false (· = c) c hF hK hal rfl _ hslot i).1
+
+/-- Code of the current tree, negation witness (known findings `tvnorm-jit-tracer-leak`,
+    `linop-lazy-adjoint-tracer-leak`): a first query inside a jit trace followed by a query with the same key
+    eagerly, or inside another trace, fails — although a fresh object succeeds. -/
+theorem C19_ctx_leak {ι κ ω : Type} [DecidableEq κ] (opKey : ω → κ) (keyOf : ι → κ) (build : ι → ω)
+    (hK : ∀ i, opKey (build i) = keyOf i) (t : Nat) (c : ExecCtx) (hct : c ≠ .trace t) (i j : ι)
+    (hk : keyOf i = keyOf j) :
+    (queryCtx false opKey keyOf build (runCtx false opKey keyOf build none [(.trace t, i)]) c j).2 = .error .leak ∧
+      (queryCtx false opKey keyOf build none c j).2 = .ok (build j) := by
+  refine ⟨?_, rfl⟩
+  have hu : usable (.trace t) c = false := by
+    simp only [usable, Bool.or_eq_false_iff, beq_eq_false_iff_ne, ne_eq]
+    refine ⟨?_, ?_⟩
+    · intro h; cases h
+    · intro h; exact hct h.symm
+  simp [runCtx, queryCtx, hK, hk, hu]
+
+-- non-vacuity: the lazily created adjoint (trivial key): jit first, then eager
+example : (queryCtx false (fun _ : Nat => ()) (fun _ : Unit => ()) (fun _ => 7)
+    (runCtx false (fun _ : Nat => ()) (fun _ : Unit => ()) (fun _ => 7) none [(.trace 0, ())]) .eager ()).2 = .error .leak := by
+  decide
+example : (queryCtx true (fun _ : Nat => ()) (fun _ : Unit => ()) (fun _ => 7)
+    (runCtx true (fun _ : Nat => ()) (fun _ : Unit => ()) (fun _ => 7) none [(.trace 0, ()), (.eager, ()), (.trace 1, ())]) .eager ()).2 = .ok 7 := by
+  decide
+
 /-! ### rescaled losses -/
 
 /-- `c * loss` / `loss * c` on a well-formed heap: every existing object (the original included) keeps
